@@ -19,8 +19,17 @@ static void evt(int kind, void *addr, int mo);
 #include "wfcqueue.c"
 #include <verif/pool.h>
 
+/* splice: how the three words shared with concurrent enqueuers are changed (source head.next, source tail, destination tail) */
+void *G_sp_src_tail, *G_sp_src_head, *G_sp_dst_tail;
+unsigned long G_sp_src_tail_x, G_sp_src_tail_st, G_sp_src_head_x, G_sp_src_head_st, G_sp_dst_tail_x, G_sp_dst_tail_st, G_sp_weak;
 static void evt(int kind, void *addr, int mo)
 {
+	if (G_sp_src_tail) {
+		if (addr == G_sp_src_tail) { if (kind == EV_XCHG) { G_sp_src_tail_x++; if (mo < CMM_SEQ_CST) G_sp_weak = 1; } else if (kind != EV_LOAD) G_sp_src_tail_st++; }
+		if (addr == G_sp_src_head) { if (kind == EV_XCHG) G_sp_src_head_x++; else if (kind != EV_LOAD) G_sp_src_head_st++; }
+		if (addr == G_sp_dst_tail) { if (kind == EV_XCHG) { G_sp_dst_tail_x++; if (mo < CMM_SEQ_CST) G_sp_weak = 1; } else if (kind != EV_LOAD) G_sp_dst_tail_st++; }
+		return;
+	}
 	if (kind == EV_RELAX) G_relax++;
 	if (kind == EV_XCHG && addr == G_tail_addr) { G_xchg_seen++; if (mo < CMM_SEQ_CST) G_order_ok = 0; }
 	if (kind == EV_STORE && G_xchg_seen && mo < CMM_RELEASE) G_order_ok = 0;	/* link store: at least release, after the exchange */
@@ -127,8 +136,20 @@ void h_splice(void)
 	w = nondet_ulong(); VERIF_REQUIRE(S_n == 0 || w < S_n); INST(S, w); wv = S_n ? S[w].next : 0;
 	v = nondet_ulong(); VERIF_REQUIRE(D_n == 0 || v < D_n); INST(D, v); vv = D_n ? D[v].next : 0;
 	VIN(unsigned long, in_blocking);
+	G_sp_src_tail = &s_tail.p; G_sp_src_head = &s_head.node.next; G_sp_dst_tail = &d_tail.p;
+	G_sp_src_tail_x = G_sp_src_tail_st = G_sp_src_head_x = G_sp_src_head_st = G_sp_dst_tail_x = G_sp_dst_tail_st = G_sp_weak = 0;
 	r = (in_blocking & 1) ? __cds_wfcq_splice_blocking(&d_head, &d_tail, &s_head, &s_tail)
 			      : __cds_wfcq_splice_nonblocking(&d_head, &d_tail, &s_head, &s_tail);
+	G_sp_src_tail = 0;
+	/* enqueuers on the source and on the destination are wait-free and never excluded: each of the three shared words must change in ONE atomic
+	 * exchange.  A load followed by a store loses the node of an enqueuer whose tail exchange falls in between (its tail update is overwritten) */
+	if (S_n) {
+		VERIF_ASSERT(G_sp_src_tail_x == 1 && G_sp_src_tail_st == 0, "splice: the source tail is detached by exactly one atomic exchange (never load + store)");
+		VERIF_ASSERT(G_sp_src_head_x == 1 && G_sp_src_head_st == 0, "splice: the source's first node is taken by exactly one atomic exchange");
+		VERIF_ASSERT(G_sp_dst_tail_x == 1 && G_sp_dst_tail_st == 0, "splice: the destination tail is advanced by exactly one atomic exchange");
+		VERIF_ASSERT(!G_sp_weak, "splice: the tail exchanges are full barriers (the store to the source head is ordered before the store to the source tail)");
+	} else
+		VERIF_ASSERT(G_sp_src_tail_x + G_sp_src_tail_st + G_sp_src_head_x + G_sp_src_head_st + G_sp_dst_tail_x + G_sp_dst_tail_st == 0, "splice of an empty source writes nothing");
 	VERIF_ASSERT(r == (S_n == 0 ? CDS_WFCQ_RET_SRC_EMPTY : (D_n ? CDS_WFCQ_RET_DEST_NON_EMPTY : CDS_WFCQ_RET_DEST_EMPTY)), "splice: return code reflects emptiness of source / destination");
 	VERIF_ASSERT(s_head.node.next == 0 && s_tail.p == &s_head.node, "splice: source left empty and reusable");
 	if (S_n) {
@@ -157,4 +178,22 @@ void h_init(void)
 	VERIF_ASSERT(h.node.next == 0 && t.p == &h.node, "init: empty queue");
 	VERIF_ASSERT(cds_wfcq_empty(&h, &t), "init: empty() holds");
 	VERIF_ASSERT(G_empty_loads == 2, "empty() reads both head.next and tail.p before answering true");
+}
+
+/* the adaptive wait shared by every blocking walk (node_sync_next, splice): for EVERY attempt counter */
+unsigned long in_attempt, in_blocking;
+void h_busy_wait(void)
+{
+	int attempt, a0, blocking; bool r;
+	VIN(unsigned long, in_attempt); VIN(unsigned long, in_blocking);
+	a0 = attempt = (int) (in_attempt % 0x7fffffffUL); blocking = (int) (in_blocking & 1);
+	G_os_poll_calls = 0;
+	r = ___cds_wfcq_busy_wait(&attempt, blocking);
+	VERIF_ASSERT(r == !blocking, "busy_wait: reports 'would block' (1) to NON-blocking callers only - a blocking caller is never told to give up, however long the enqueuer it waits for stays suspended (it would hand WOULDBLOCK to code that takes it for a node)");
+	if (blocking) {
+		VERIF_ASSERT(attempt == ((a0 + 1 >= WFCQ_ADAPT_ATTEMPTS) ? 0 : a0 + 1), "busy_wait (blocking): counts attempts, restarts the count after sleeping");
+		VERIF_ASSERT(G_os_poll_calls == ((a0 + 1 >= WFCQ_ADAPT_ATTEMPTS) ? 1UL : 0UL), "busy_wait (blocking): spins WFCQ_ADAPT_ATTEMPTS times, then sleeps once per round");
+	} else
+		VERIF_ASSERT(attempt == a0 && G_os_poll_calls == 0, "busy_wait (non-blocking): neither counts nor sleeps");
+	VERIF_COVER(blocking && a0 + 1 >= WFCQ_ADAPT_ATTEMPTS); VERIF_COVER(blocking && a0 == 0); VERIF_COVER(!blocking);
 }
